@@ -135,6 +135,7 @@ def run_explore(shard, mon, S, p):
     sched = Scheduler(env.PKG, gran)
     sched.install()
     rng = env.rng("C14", shard["_name"])
+    traces = set()
     budget = sz["budget"]
     order = sorted(shard["pairs"], key=lambda x: 0 if x[0].startswith(("algo", "api", "nat")) else 1)
     try:
@@ -150,6 +151,8 @@ def run_explore(shard, mon, S, p):
 
             def judge_run(r, desc):
                 mon.ev()
+                if r.get("trace") is not None:
+                    traces.add(h64(repr((a, b, r["trace"]))))
                 mon.tally("schedules_" + gran)
                 if r["degraded"]:
                     mon.tally("degraded")
@@ -170,7 +173,7 @@ def run_explore(shard, mon, S, p):
             mon.distinct((a, b, gran, 0, ()))
             for first, n_first in ((0, na), (1, nb)):
                 for k in range(1, n_first + 1):
-                    r = sched.run(thunks, first=first, preempt={(first, k)})
+                    r = sched.run(thunks, first=first, preempt={(first, k)}, trace=True)
                     judge_run(r, {"first": first, "preempt": [[first, k]]})
                     mon.distinct((a, b, gran, first, (k,)))
             if gran == "line" and sz["two"]:
@@ -203,6 +206,7 @@ def run_explore(shard, mon, S, p):
     finally:
         sched.uninstall()
     after = solo_digests(S, p, ids)
+    mon.tally("distinct_interleavings_" + gran, len(traces))
     if after != before:
         mon.inconclusive.append("solo outcomes before and after the exploration differ (see C15)")
     if shard["pairs"]:
@@ -439,5 +443,7 @@ def finish(m, tier, seed):
     return {
         "schedules_line": t.get("schedules_line", 0), "schedules_instr": t.get("schedules_instr", 0), "degraded_schedules": t.get("degraded", 0),
         "pairs_explored_line": t.get("pairs_explored_line", 0), "pairs_explored_instr": t.get("pairs_explored_instr", 0),
+        "distinct_interleavings_line": t.get("distinct_interleavings_line", 0), "distinct_interleavings_instr": t.get("distinct_interleavings_instr", 0),
+        "interleaving_identity": "hash of the merged step trace (worker, function, line/offset) of each single-preemption schedule",
         "exhaustive": False, "exhaustive_subspaces": "all single preemption points (both start orders) of each pair drawn, at the stated granularity",
     }
